@@ -166,8 +166,19 @@ def mag(ps):
     return m
 
 
-def check_one(ctx, rng, cls, op):
-    o = Bd.make(rng, cls)
+def special_object(rng, cls):
+    """the special member of a class that every run must see at least once: full circles, grid meshes with shared per-face data"""
+    for _ in range(60):
+        o = Bd.make(rng, cls)
+        if cls in ('Arc2D', 'Arc3D') and o.is_circle:
+            return o
+        if cls in ('Mesh2D', 'Mesh3D') and isinstance(getattr(o, '_face_areas', None), (int, float)):
+            return o
+    return Bd.make(rng, cls)
+
+
+def check_one(ctx, rng, cls, op, special=False):
+    o = special_object(rng, cls) if special and cls in ('Arc2D', 'Arc3D', 'Mesh2D', 'Mesh3D') else Bd.make(rng, cls)
     is3d = cls not in Bd.CLASSES_2D
     if not hasattr(o, op):
         return False
@@ -177,6 +188,11 @@ def check_one(ctx, rng, cls, op):
     args, pkey = gen_args(rng, op, is3d)
     if isvec:
         args = args[:-1]      # vectors: rotate(angle) / rotate(axis, angle) / reflect(normal): no origin
+    if special:
+        # the special member is transformed both cold (nothing read yet) and warm (after it has answered its properties)
+        evaluate(ctx, cls, op, o, args, pkey, warm=False)
+        o2 = special_object(rng, cls) if cls in ('Arc2D', 'Arc3D', 'Mesh2D', 'Mesh3D') else Bd.make(rng, cls)
+        return evaluate(ctx, cls, op, o2, args, pkey, warm=True)
     return evaluate(ctx, cls, op, o, args, pkey, warm=rng.random() < 0.5)
 
 
@@ -386,12 +402,12 @@ OPS = ['move', 'rotate', 'rotate_xy', 'reflect', 'scale']
 
 def explore(ctx):
     rng = ctx.rng
-    per = ctx.n(4, 40)
+    per = ctx.n(5, 40)
     for cls in Bd.ALL_CLASSES:
         for op in OPS:
-            for _ in range(per):
+            for i_ in range(per):
                 try:
-                    check_one(ctx, rng, cls, op)
+                    check_one(ctx, rng, cls, op, special=(i_ == 0))
                 except AssertionError as e:
                     ctx.violation('%s.%s:raises' % (cls, op), 'AssertionError %s' % e, {'class': cls, 'op': op})
 
